@@ -43,7 +43,7 @@ def indexHeader : P IndexHeader := do
   let data ← segment
   let _ ← segment
   let folder ← segment
-  let ty ← P.padSizeTo 4 (P.reprEnum u8Nat [0, 1])
+  let ty ← P.padSizeTo 4 (P.reprEnum u8Nat Generated.C18.indexTypes)
   P.skip 656
   let _ ← P.bytes 20
   P.skip 44
